@@ -247,8 +247,13 @@ func (ss *SourceConf) applyAux(aux *auxSourceConf) (err error) {
 		}
 		patterns = append(patterns, p)
 	}
-	ss.Include = patterns[0:len(aux.Include)]
-	ss.Ignore = patterns[len(aux.Include):]
+	// Leave an omitted list nil (not empty) so that it is inherited
+	if len(aux.Include) > 0 {
+		ss.Include = patterns[0:len(aux.Include)]
+	}
+	if len(aux.Ignore) > 0 {
+		ss.Ignore = patterns[len(aux.Include):]
+	}
 	if aux.ErrorBackoff != "" {
 		ss.ErrorBackoff, err = strconv.ParseFloat(aux.ErrorBackoff, 64)
 		ss.isErrorBackoffSet = true
